@@ -460,6 +460,70 @@ def direct_suites(chk, n_eval, n_raw, n_tok):
     return {"evs": evs, "raws": raws, "toks": (toks, r_tok, r_unq), "seqs": (seqs, r_isseq, r_mseq), "hdrs": (hdrs, r_hc, r_hh), "dates": (dates, r_md), "out": out}
 
 
+# ---------------------------------------------------------------- listings with copied messages (direct)
+
+def listing_suite(chk, n_listings, n_progs):
+    """evaluateSearchCriteria on listings in which one stored message (message id)
+    occurs up to three times, with identical and with different flag strings and
+    different internal dates; every entry is judged on its own seq / uid / flags / date"""
+    rng = chk.rng
+    pseudo = []
+    cases = []
+    flag_pool = [[], ["\\Recent"], ["\\Recent"], ["\\Seen"], ["\\Seen", "\\Recent"], ["Junk", "\\Recent"], ["\\Flagged"], ["\\recent"]]
+    for _ in range(n_listings):
+        n = rng.randint(2, 6)
+        ids = [rng.randint(1, 3) for _ in range(n)]
+        if len(set(ids)) == n:
+            ids[-1] = ids[0]
+        uids = sorted(rng.sample(range(1, 15), n))
+        per_id_flags = {}
+        mb = []
+        for k in range(n):
+            fl = per_id_flags[ids[k]] if ids[k] in per_id_flags and rng.random() < 0.6 else rng.choice(flag_pool)
+            per_id_flags.setdefault(ids[k], fl)
+            d = (2024, rng.choice([1, 1, 2]), rng.randint(1, 4))
+            mb.append({"uid": uids[k], "flags": list(fl), "text": b"", "idate": d, "id": ids[k]})
+        ctx = Ctx(n, uids, [], [], [], [m["idate"] for m in mb], [], text_keys=False)
+        progs = []
+        for j in range(n_progs):
+            r = rng.random()
+            i = rng.randint(1, n)
+            u = rng.choice(uids)
+            a, b = sorted([rng.randint(1, n), rng.randint(1, n)])
+            if r < 0.15:
+                ks = [("seq", [("one", str(i))])]
+            elif r < 0.25:
+                ks = [("seq", [("range", str(a), str(b))])]
+            elif r < 0.35:
+                ks = [("uid", [("range", str(u), str(u + rng.randint(0, 3)))])]
+            elif r < 0.45:
+                ks = [("not", ("seq", [("one", str(i))]))]
+            elif r < 0.55:
+                ks = [("or", ("seq", [("one", str(i))]), ("has", "Seen"))]
+            elif r < 0.65:
+                ks = [("seq", [("one", str(i))]), g_simple(rng, ctx, True)]
+            elif r < 0.75:
+                ks = [("date", False, rng.choice(["BEFORE", "ON", "SINCE"]), g_date(rng, ctx))]
+            else:
+                ks = g_prog(rng, ctx)
+            progs.append({"ks": ks, "text": print_prog(ks), "uid": False})
+            cases.append({"a": [progs[-1]["text"]] + [" ".join(m["flags"]) for m in mb],
+                          "n": [x for m in mb for x in (m["id"], m["uid"]) + tuple(m["idate"])]})
+        pseudo.append({"mb": mb, "progs": progs, "raws": []})
+    res = C.run_ops([{"op": "batch", "fn": "searchListing", "cases": cases}], timeout=600)
+    if res.get("crashed"):
+        chk.broken_obligation("driver crashed on the C19 listing suite: %s" % res.get("stderr", "")[:500])
+        return None
+    rs = res["obs"][0]["rs"]
+    k = 0
+    for se in pseudo:
+        for p in se["progs"]:
+            r = rs[k]
+            k += 1
+            p["impl"] = ("panic",) if isinstance(r, dict) else ("ok", [int(x) for x in (r or [])])
+    return pseudo
+
+
 # ---------------------------------------------------------------- message texts
 
 NAMES = ["Alice Adams <alice@example.com>", "bob@example.org", "Carol (x) <carol@test.net>", "dave@example.com, erin@example.com"]
@@ -539,8 +603,33 @@ def history_ops(rng):
         ops.append({"op": "send", "conn": "c", "data": "%s APPEND INBOX (%s) {%d}\r\n" % (t, " ".join(fl), len(m)), "until": "cont:%s" % t})
         ops.append({"op": "send", "conn": "c", "data": C.latin(m) + "\r\n", "until": "tag:%s" % t})
     ops.append(cmd("a2", "SELECT INBOX"))
-    # C09/C10 history: flag changes, an expunge in the middle (uids get gaps)
     k = 0
+    # copied messages: one stored message listed 2-3 times, in the selected mailbox
+    # itself (COPY n INBOX) or in another mailbox (two copies into Archive, searched there)
+    mode = rng.choice(["none", "same", "same", "other", "other"])
+    if mode == "same":
+        src = rng.randint(1, n)
+        for _ in range(rng.randint(1, 2)):
+            ops.append(cmd("h%d" % k, rng.choice(["COPY %d INBOX", "UID COPY %d INBOX"]) % src))
+            k += 1
+        if rng.random() < 0.5:
+            ops.append(cmd("h%d" % k, "COPY %d INBOX" % rng.randint(1, n)))
+            k += 1
+        n += 2
+    elif mode == "other":
+        ops.append(cmd("h%d" % k, "CREATE Archive"))
+        k += 1
+        src = rng.randint(1, n)
+        seqs = [src, rng.randint(1, n), src] + ([src] if rng.random() < 0.4 else []) + [rng.randint(1, n)]
+        for q in seqs:
+            ops.append(cmd("h%d" % k, rng.choice(["COPY %d Archive", "COPY %d Archive", "UID COPY %d Archive"]) % q))
+            k += 1
+        ops.append(cmd("h%d" % k, "SELECT Archive"))
+        k += 1
+        n = len(seqs)
+        if rng.random() < 0.6:
+            return ops          # keep the copies' flag strings byte-identical
+    # C09/C10 history: flag changes, an expunge in the middle (uids get gaps)
     for _ in range(rng.randint(0, 2)):
         ops.append(cmd("h%d" % k, "STORE %d +FLAGS (\\Deleted)" % rng.randint(1, n)))
         k += 1
@@ -631,6 +720,22 @@ def run_sessions(chk, n_sessions, n_progs):
                 a, b = sorted([r2.randint(1, max(ctx.uids) + 1), r2.randint(1, max(ctx.uids) + 1)])
                 ks = r2.choice([[("all",)], [("uid", [("range", str(a), str(b))])], [("uid", [("one", str(a))])], [("uid", [("range", str(a), "*")])]])
             progs.append({"ks": ks, "text": print_prog(ks), "uid": uid_mode})
+        texts = [m["text"] for m in mb]
+        if len(set(texts)) < len(texts):
+            # one stored message is listed several times: every entry is judged on its own
+            n_ = len(mb)
+            w = r2.choice(words)
+            today = mb[0]["idate"]
+            for _ in range(14):
+                i = r2.randint(1, n_)
+                u = r2.choice(ctx.uids)
+                a, b = sorted([r2.randint(1, n_), r2.randint(1, n_)])
+                one, rng_, uidk = ("seq", [("one", str(i))]), ("seq", [("range", str(a), str(b))]), ("uid", [("range", str(u), str(u + r2.randint(0, 2)))])
+                ks = r2.choice([[one], [rng_], [uidk], [("not", one)], [("or", one, ("hdr", "From", w))], [("or", uidk, ("text", w))],
+                                [one, ("text", w)], [uidk, ("body", w)], [rng_, ("hdr", "Subject", w)], [("not", uidk), ("text", w)],
+                                [one, ("date", False, "ON", (str(today[2]), today[1], "%04d" % today[0]))],
+                                [("not", one), ("date", False, "SINCE", (str(today[2]), today[1], "%04d" % today[0]))]])
+                progs.append({"ks": ks, "text": print_prog(ks), "uid": r2.random() < 0.15 and ks == [uidk]})
         for (y, mo, d) in sent[:4]:
             dd = d + r2.choice([-1, 0, 0, 1])
             if not 1 <= dd <= 28:
@@ -734,6 +839,8 @@ def replay_witnesses(chk):
             ops.append({"op": "send", "conn": "c", "data": "p%d APPEND INBOX (%s) {%d}\r\n" % (i, " ".join(m["flags"]), len(raw)), "until": "cont:p%d" % i})
             ops.append({"op": "send", "conn": "c", "data": C.latin(raw) + "\r\n", "until": "tag:p%d" % i})
         ops.append(cmd("a2", "SELECT INBOX"))
+        for j, st in enumerate(w.get("setup", [])):
+            ops.append(cmd("u%d" % j, st))
         ops.append(cmd("w1", w["command"]))
         paths.append(path)
         scen.append(ops)
@@ -786,6 +893,26 @@ def run(chk):
                 continue
             chk.broken_obligation("correspondence C19 no longer checks: %s differs from the model on %r" % (label, c), {"suite": name, "case": repr(c)})
 
+    listings = listing_suite(chk, 60 if quick else 400, 5)
+    if listings is None:
+        return
+    lout = eval_sessions(chk, listings, pid="C19m")
+    if lout is None:
+        return
+    n_listing_cases = 0
+    n_listing_reports = 0
+    for si, se in enumerate(listings):
+        n_listing_cases += len(se["progs_ok"])
+        for v in lout["s_bad%d" % si][:2]:
+            p = se["progs_ok"][v >> 8]
+            nd += 1
+            n_listing_reports += 1
+            if n_listing_reports > 10:
+                continue
+            decide(chk, "evaluateSearchCriteria %r on a listing with stored message ids %s, uids %s, flags %s: implementation answers %r" % (
+                       p["text"], [m["id"] for m in se["mb"]], [m["uid"] for m in se["mb"]], [" ".join(m["flags"]) for m in se["mb"]], p["impl"]),
+                   v & 255, {"suite": "listing", "ids": [m["id"] for m in se["mb"]], "mailbox": jsonable_mb(se["mb"]), "criteria": p["text"], "impl": p["impl"]}, stats)
+    chk.cov["listing_programs"] = n_listing_cases
     sessions = run_sessions(chk, 12 if quick else 60, 45 if quick else 70)
     if sessions is None:
         return
@@ -817,7 +944,8 @@ def run(chk):
                 if p["impl"][0] != "no":
                     chk.violation("SEARCH %s (unsupported charset) answered %r instead of NO" % (p["text"], p["impl"]), {"suite": "charset", "text": p["text"], "impl": p["impl"]})
     ev_nontriv = set((e["text"], e["i"], tuple(e["m"]["flags"])) for e in d["evs"] if len(e["ks"]) > 1 or e["ks"][0][0] in ("not", "or", "group"))
-    chk.cov["evaluations"] = len(d["evs"]) + len(d["raws"]) + 2 * len(d["toks"][0]) + 2 * len(d["seqs"][0]) + 2 * len(d["hdrs"][0]) + len(d["dates"][0]) + n_sess_cases
+    chk.cov["sessions_with_copied_message"] = sum(1 for se in sessions if len(set(m["text"] for m in se["mb"])) < len(se["mb"]))
+    chk.cov["evaluations"] = n_listing_cases + len(d["evs"]) + len(d["raws"]) + 2 * len(d["toks"][0]) + 2 * len(d["seqs"][0]) + 2 * len(d["hdrs"][0]) + len(d["dates"][0]) + n_sess_cases
     chk.cov["distinct_nontrivial"] = len(nontriv) + len(ev_nontriv)
     chk.cov["rule"] = ("direct: evaluateTokens on programs printed from generated ASTs (depth<=3, 60% inside the proved fragment) against one message, "
                        "token soups, parseSearchTokens/unquote/isSequenceSet/matchesSequenceSet/headerContains/hasHeader/matchesDate on generated inputs; "
@@ -855,6 +983,10 @@ def replay(path):
         c = d["case"]
         m = c["m"]
         print(C.run_ops([{"op": "call", "fn": "evalCriteriaZone", "a": [" ".join(m["flags"]), c["text"]], "n": [c["i"], m["uid"]] + m["idate"] + m.get("zt", [12, 0, 0])}]))
+    elif d.get("suite") == "listing":
+        mb = d["mailbox"]
+        print(C.run_ops([{"op": "call", "fn": "searchListing", "a": [d["criteria"]] + [" ".join(m["flags"]) for m in mb],
+                          "n": [x for i, m in zip(d["ids"], mb) for x in [i, m["uid"]] + m["idate"]]}]))
     elif d.get("suite") == "date":
         print(C.run_ops([{"op": "call", "fn": "matchesDateZone", "a": [d["target"], d["cmp"]], "n": d["date"] + d["zone_time"]}]))
     return 0
